@@ -4,7 +4,7 @@
    sdl_rules_ok).  Proofs: Proofs/SdlProofs.v.  Statements only. *)
 From Coq Require Import Sorting.Permutation.
 From PyGql Require Import Run.Driver Schema.SdlBuild Spec.SdlSpec Proofs.SdlProofs Proofs.SdlWitnesses
-     Proofs.SdlExactProofs Proofs.SdlOrderProofs.
+     Proofs.SdlExactProofs Proofs.SdlOrderProofs Proofs.SdlOrderRulesProofs.
 
 (* ---- full-strength statements (kept visible) -------------------------- *)
 
@@ -75,17 +75,36 @@ Theorem C11_order_declared : forall doc doc',
 Proof. exact declared_order. Qed.
 Print Assumptions C11_order_declared.
 
-(* ... and so does what the builder returns, when both documents satisfy the
-   rules and are outside the findings (that the rules and the guard are
-   themselves invariant under such permutations is not proved) *)
+(* the rules and the guard are themselves invariant under such permutations
+   (validate_schema does not depend on the order of the types; every lookup by
+   name finds the same definition because names are unique) ... *)
+Theorem C11_order_rules : forall doc doc',
+  Permutation (doc_defs doc) (doc_defs doc') ->
+  (forall n, exts_for n (doc_defs doc) = exts_for n (doc_defs doc')) ->
+  schema_exts (doc_defs doc) = schema_exts (doc_defs doc') ->
+  sdl_rules_ok doc -> sdl_rules_ok doc'.
+Proof. exact rules_order. Qed.
+Print Assumptions C11_order_rules.
+
+Theorem C11_order_guard : forall doc doc',
+  Permutation (doc_defs doc) (doc_defs doc') ->
+  (forall n, exts_for n (doc_defs doc) = exts_for n (doc_defs doc')) ->
+  r_unique_types doc = true ->
+  defaults_stable doc -> defaults_stable doc'.
+Proof. exact stable_order. Qed.
+Print Assumptions C11_order_guard.
+
+(* ... so what the builder returns does not depend on the order either:
+   nothing is assumed of the second document *)
 Theorem C11_order_build : forall doc doc',
   Permutation (doc_defs doc) (doc_defs doc') ->
   (forall n, exts_for n (doc_defs doc) = exts_for n (doc_defs doc')) ->
   schema_exts (doc_defs doc) = schema_exts (doc_defs doc') ->
-  sdl_rules_ok doc -> defaults_stable doc -> sdl_rules_ok doc' -> defaults_stable doc' ->
-  exists sc sc', build_model (BOpts false []) doc = Ok sc /\ build_model (BOpts false []) doc' = Ok sc'
-                 /\ schema_equiv sc sc' = true.
-Proof. exact order_build. Qed.
+  sdl_rules_ok doc -> defaults_stable doc ->
+  sdl_rules_ok doc' /\ defaults_stable doc'
+  /\ exists sc sc', build_model (BOpts false []) doc = Ok sc /\ build_model (BOpts false []) doc' = Ok sc'
+                    /\ schema_equiv sc sc' = true.
+Proof. exact order_build_full. Qed.
 Print Assumptions C11_order_build.
 
 (* C11_reject for the rules _collect_definitions enforces: a duplicate type
